@@ -241,8 +241,10 @@ class CSSStyleSheet(cssutils.stylesheets.StyleSheet):
                             r._replaceNamespaceURI(rule.namespaceURI)
 
                 self._namespaces[rule.prefix] = rule.namespaceURI
+                return 2
 
-            return 2
+            # an ignored statement does not end the head of the sheet
+            return expected
 
         def variablesrule(expected, seq, token, tokenizer):
             # parse and consume tokens in any case
@@ -259,8 +261,9 @@ class CSSStyleSheet(cssutils.stylesheets.StyleSheet):
             elif rule.wellformed:
                 self.insertRule(rule)
                 self._updateVariables()
+                return 2
 
-            return 2
+            return expected
 
         def fontfacerule(expected, seq, token, tokenizer):
             # parse and consume tokens in any case
@@ -268,7 +271,8 @@ class CSSStyleSheet(cssutils.stylesheets.StyleSheet):
             rule.cssText = self._tokensupto2(tokenizer, token)
             if rule.wellformed:
                 self.insertRule(rule)
-            return 3
+                return 3
+            return expected
 
         def mediarule(expected, seq, token, tokenizer):
             # parse and consume tokens in any case
@@ -276,7 +280,8 @@ class CSSStyleSheet(cssutils.stylesheets.StyleSheet):
             rule.cssText = self._tokensupto2(tokenizer, token)
             if rule.wellformed:
                 self.insertRule(rule)
-            return 3
+                return 3
+            return expected
 
         def pagerule(expected, seq, token, tokenizer):
             # parse and consume tokens in any case
@@ -284,7 +289,8 @@ class CSSStyleSheet(cssutils.stylesheets.StyleSheet):
             rule.cssText = self._tokensupto2(tokenizer, token)
             if rule.wellformed:
                 self.insertRule(rule)
-            return 3
+                return 3
+            return expected
 
         def unknownrule(expected, seq, token, tokenizer):
             # parse and consume tokens in any case
@@ -323,7 +329,8 @@ class CSSStyleSheet(cssutils.stylesheets.StyleSheet):
             rule.cssText = self._tokensupto2(tokenizer, token)
             if rule.wellformed:
                 self.insertRule(rule)
-            return 3
+                return 3
+            return expected
 
         # save for possible reset
         oldCssRules = self.cssRules
